@@ -56,6 +56,19 @@ pub proof fn lemma_trace_push(instrs: Seq<Instruction>, labels: Map<String, usiz
     }
 }
 
+pub proof fn lemma_env_push(e_init: Env, tr: Seq<Step>, st: Step)
+    requires env_threaded(e_init, tr), st.e0 == cur_env(e_init, tr),
+    ensures env_threaded(e_init, tr.push(st)), cur_env(e_init, tr.push(st)) == e_after(st),
+{
+    reveal(env_threaded);
+    let t2 = tr.push(st);
+    assert forall|i: int| 0 <= i < t2.len() implies (#[trigger] t2[i]).e0 == (if i == 0 { e_init } else { e_after(t2[i - 1]) }) by {
+        if i < tr.len() { assert(t2[i] == tr[i]); if i > 0 { assert(t2[i - 1] == tr[i - 1]); } } else if i > 0 { assert(t2[i - 1] == tr.last()); }
+    }
+    assert(t2.last() == st);
+}
+pub proof fn lemma_env_empty(e_init: Env) ensures env_threaded(e_init, Seq::empty()) { reveal(env_threaded); }
+
 pub proof fn lemma_trace_empty(instrs: Seq<Instruction>, labels: Map<String, usize>, repl: bool, start: usize, v_init: Map<String, String>)
     ensures trace_ok(instrs, labels, repl, start, v_init, Seq::empty()),
 { reveal(trace_ok); }
